@@ -255,15 +255,32 @@ def check(ctx):
     vb = bp.func("_SubprocChainRaiseWrapper._visit_boolop")
     vcfg = CFG(vb)
     sets = [n for n in vcfg.nodes if n.kind == "stmt" and isinstance(n.ast, ast.Assign) and unparse(n.ast.targets[0]) == "self._inside_boolop" and const_value(n.ast.value) is True]
-    resets = [n for n in vcfg.nodes if n.kind == "stmt" and isinstance(n.ast, ast.Assign) and unparse(n.ast.targets[0]) == "self._inside_boolop" and const_value(n.ast.value) is False]
+    # a reset writes False, or writes back a local that saved the flag before it was set (save/restore idiom)
+    saved = names_bound_to_text(vb, "self._inside_boolop")
+    saved = {s_ for s_ in saved if all(vcfg.dominated(st_, lambda m, s_=s_: m.kind == "stmt" and isinstance(m.ast, ast.Assign) and unparse(m.ast.targets[0]) == s_) for st_ in sets)}
+    resets = [n for n in vcfg.nodes if n.kind == "stmt" and isinstance(n.ast, ast.Assign) and unparse(n.ast.targets[0]) == "self._inside_boolop" and (const_value(n.ast.value) is False or unparse(n.ast.value) in saved)]
     ok = bool(sets) and bool(resets)
     path = None
     if ok:
         ok, path = vcfg.must_pass(sets, lambda m: m in resets)
     ctx.ob("R3", f"{BP}:_SubprocChainRaiseWrapper._visit_boolop", "the inside-chain flag is reset on every exit (normal or exceptional)", ok, key="inside-boolop-not-restored", path=vcfg.fmt_path(path) if path else None)
-    # nested chain: returns node unwrapped; outermost: wrapped iff it contains a subprocess
+    # nested chain: returns node unwrapped; outermost: wrapped iff it contains a subprocess.  Decided by three-valued
+    # evaluation of the guards that dominate the wrapping return: it must be unreachable when the chain holds no
+    # subprocess, and unreachable when the flag was set on entry (nested chain)
     wraps = [n for n in vcfg.nodes if n.kind == "stmt" and isinstance(n.ast, ast.Return) and "self._wrap(" in unparse(n.ast)]
-    okw = bool(wraps) and all(any("_boolop_contains_subproc" in t and p for t, p in [(unparse(t), p) for t, p in vcfg.guards(w)]) and not any("self._inside_boolop" == unparse(t) and p for t, p in vcfg.guards(w)) for w in wraps)
+
+    def blocked(w, assignment):
+        def atoms(e):
+            t = unparse(e)
+            for k_, v_ in assignment.items():
+                if t == k_ or (k_.endswith("(") and t.startswith(k_)):
+                    return v_
+            return None
+
+        return any(ev3(t, atoms) is (not p) for t, p in vcfg.guards(w))
+
+    entry_flag = {"self._inside_boolop": True} | {s_: True for s_ in saved}
+    okw = bool(wraps) and all(blocked(w, {"_boolop_contains_subproc(": False}) and blocked(w, entry_flag) for w in wraps)
     ctx.ob("R3", f"{BP}:_SubprocChainRaiseWrapper._visit_boolop", "only an outermost chain that contains a subprocess is wrapped", okw, key="wrap-condition")
     bc = bp.func("_boolop_contains_subproc")
     bparam = bc.args.args[0].arg
